@@ -7,7 +7,9 @@ PROPERTY = "C16"
 TRACE_MODULE = "FontInfoTrace"
 TRACE_CFG = "FontInfoTrace.cfg"
 RULE = ("random subsets of the metric cluster (unitsPerEm, ascender, descender, xHeight, capHeight, hhea / typo / win metrics, "
-        "caret slope, underline) with integral / fractional (.5, .25) / negative spec-valid values, and of the naming cluster "
+        "caret slope, underline) with integral / fractional (.5, .25) / negative spec-valid values, of the bit-list attributes "
+        "(head flags, OS/2 selection / type / Unicode ranges / code page ranges: valid bit numbers in any order, possibly repeated "
+        "or empty), and of the naming cluster "
         "(family, style, style-map, preferred, PostScript, version) with strings drawn from ASCII, Latin-1, Latin Extended, "
         "Greek, CJK, emoji and PostScript-forbidden characters x {TTF, OTF}; reloaded name / OS/2 / hhea / head / post fields "
         "are compared with the TLA+ fallback formulas; non-trivial = at least one attribute absent and one present; distinct by "
@@ -46,6 +48,35 @@ STR_ATTRS = {
 }
 
 
+# bit-list attributes: values from the UFO3-valid bit numbers; a list may name a bit more than once and in any order
+BIT_ATTRS = {
+    "openTypeHeadFlags": list(range(0, 15)),
+    "openTypeOS2Type": [0, 1, 2, 3, 8, 9],
+    "openTypeOS2Selection": [1, 2, 3, 4, 7, 8, 9],
+    "openTypeOS2UnicodeRanges": list(range(0, 128)),
+    "openTypeOS2CodePageRanges": [0, 1, 2, 3, 4, 5, 6, 7, 8, 16, 17, 18, 19, 20, 21, 29, 30, 31, 48, 49, 50, 51, 52, 53, 54, 55, 56, 57, 58, 59, 60, 61, 62, 63],
+}
+
+
+def _bitlist(rng, valid):
+    if rng.random() < 0.15:
+        return []
+    bits = rng.sample(valid, rng.randint(1, min(5, len(valid))))
+    if rng.random() < 0.4:
+        bits += [rng.choice(bits) for _ in range(rng.randint(1, 2))]     # repeated bit numbers
+    if rng.random() < 0.5:
+        rng.shuffle(bits)
+    return bits
+
+
+def _bits_of(*words):
+    out, base = [], 0
+    for w in words:
+        out += [base + k for k in range(32) if (w >> k) & 1]
+        base += 32
+    return out
+
+
 def design_checks(tier):
     return [dict(module="FontInfoMC", cfg="FontInfoMC.cfg", workers=8, timeout=300)]
 
@@ -64,6 +95,9 @@ def cases(tier, seed):
         for a, vals in STR_ATTRS.items():
             if rng.random() < ps:
                 info[a] = rng.choice(vals)
+        for a, valid in BIT_ATTRS.items():
+            if rng.random() < 0.3:
+                info[a] = _bitlist(rng, valid)
         # keep the subset spec-valid
         if info.get("ascender", 1) < 0:
             info.pop("ascender")
@@ -102,9 +136,10 @@ def execute(case):
         return [_execute_vf(case, glyphs)]
     font = absfont.build_font({"glyphs": glyphs, "info": dict(case["info"])}, case["lib"])
     info = case["info"]
-    rec = {"tid": case["cid"], "present": sorted(info), "flavor": case["flavor"],
+    rec = {"tid": case["cid"], "present": sorted(a for a in info if a not in BIT_ATTRS), "flavor": case["flavor"],
            "num": {a: absfont.to_scaled(v, 4) for a, v in info.items() if a in NUM_ATTRS},
-           "str": {a: _cps(v) for a, v in info.items() if a in STR_ATTRS}}
+           "str": {a: _cps(v) for a, v in info.items() if a in STR_ATTRS},
+           "bits": {a: list(v) for a, v in info.items() if a in BIT_ATTRS}}
     try:
         otf = (ufo2ft.compileTTF if case["flavor"] == "tt" else ufo2ft.compileOTF)(font, useProductionNames=False)
         data, f2 = project.save_reload(otf)
@@ -122,7 +157,11 @@ def execute(case):
     for nr in f2["name"].names:
         if nr.platformID == 3 and nr.langID == 0x409:
             names[str(nr.nameID)] = _cps(nr.toUnicode())
-    ret = {"num": num, "names": names, "reloaded": True}
+    ret = {"num": num, "names": names, "reloaded": True,
+           "bits": {"headFlags": _bits_of(hd.flags), "fsType": _bits_of(os2.fsType), "fsSelection": _bits_of(os2.fsSelection),
+                    "macStyle": _bits_of(hd.macStyle),
+                    "unicodeRanges": _bits_of(os2.ulUnicodeRange1, os2.ulUnicodeRange2, os2.ulUnicodeRange3, os2.ulUnicodeRange4),
+                    "codePageRanges": _bits_of(os2.ulCodePageRange1, os2.ulCodePageRange2)}}
     if "CFF " in f2:
         cff = f2["CFF "].cff
         ret["cffName"] = _cps(cff.fontNames[0])
@@ -140,6 +179,8 @@ def _execute_vf(case, glyphs):
     base_info = dict(case["info"])
     base_info.setdefault("familyName", "VF Test")
     base_info.pop("postscriptFontName", None)
+    for a in BIT_ATTRS:
+        base_info.pop(a, None)
     merged = dict(base_info)
     merged.update(case["vfInfo"])
     g2 = copy.deepcopy(glyphs)
